@@ -55,6 +55,8 @@ type Client struct {
 	Exch     []Exch `json:"exch"`
 	Spoof    int    `json:"spoof,omitempty"`     // forged foreign-ID datagrams injected towards this client
 	Pipeline bool   `json:"pipeline,omitempty"`  // tcp: all queries are written before any reply is read; the handlers answer asynchronously
+	IntrFrame int  `json:"intr_frame,omitempty"` // with Pipeline: 1-based number of the query frame in which the server's read is interrupted once (a temporary, non-timeout error)
+	IntrOff   int  `json:"intr_off,omitempty"`   // ... after this many octets of that frame (0 before the length prefix, 1 between its octets, 2 behind it, more: inside the message)
 	SlowRead bool   `json:"slow_read,omitempty"` // with Pipeline: the client takes the first ten octets of the reply stream, pauses for three seconds, then reads on; the link's window is 256 octets in such a run, so the server's writes wait for it
 	Trickle  bool   `json:"trickle,omitempty"`   // tcp: the first query arrives in three pieces, 1.5 and 1 server read timeouts apart, the others right behind it; the server (read timeout 2 s in such a run) may give up on the connection, it must not serve anything but the requests that were sent
 	Home     int    `json:"home,omitempty"`      // udp: which of the server host's addresses this client talks to
@@ -233,7 +235,15 @@ func Gen(seed uint64, tier string) any {
 				c.Exch[j].H.Kind = core.Pick(r, "async", "async", "normal")
 				c.Exch[j].TimeoutMs = 60000
 			}
-			if core.Chance(r, 35) {
+			if core.Chance(r, 25) {
+				c.IntrFrame, c.IntrOff = 1+r.IntN(len(c.Exch)), core.Pick(r, 0, 1, 1, 1, 2, 7)
+				for j := range c.Exch {
+					// (answers from the handler itself: when the server gives the connection up at the interrupted
+					// read, a reply still being written by another task meets the server's close - a stream's
+					// writer belongs to its connection, nothing in the statement is about that)
+					c.Exch[j].H.Kind = "normal"
+				}
+			} else if core.Chance(r, 35) {
 				// (small queries that fit the window together: a client that still writes while the
 				// server is already stuck writing to it is a deadlock of the two, not of the library)
 				c.SlowRead = true
@@ -1315,7 +1325,7 @@ func (c *clientTask) pipeline(co *dns.Conn, sconn *simnet.StreamConn) {
 	x, k := c.x, c.x.k
 	plan := x.sc.Clients[c.ci]
 	sconn.SetDeadline(time.Now().Add(2 * time.Minute))
-	sent := 0
+	sent, written := 0, 0
 	for ei, e := range plan.Exch {
 		ex := x.ex[tok(c.ci, ei)]
 		m := new(dns.Msg)
@@ -1329,10 +1339,14 @@ func (c *clientTask) pipeline(co *dns.Conn, sconn *simnet.StreamConn) {
 		}
 		k.Lock()
 		ex.reqBytes = clone(b)
+		if plan.IntrFrame == ei+1 && sconn.Peer != nil {
+			sconn.Peer.TransientAt = written + plan.IntrOff
+		}
 		k.Unlock()
 		if co.WriteMsg(m) != nil {
 			break
 		}
+		written += 2 + len(b)
 		sent++
 	}
 	expect := 0
@@ -1353,6 +1367,12 @@ func (c *clientTask) pipeline(co *dns.Conn, sconn *simnet.StreamConn) {
 	seen := map[string]bool{}
 	for i := 0; i < expect; i++ {
 		r, err := co.ReadMsg()
+		if err != nil && plan.IntrFrame > 0 {
+			// the server's read was interrupted: it may give the connection up there and then (what it answers
+			// it must still answer rightly)
+			x.bump("cover.pipelined_reply_missing_after_interrupted_read")
+			break
+		}
 		if err != nil {
 			k.Lock()
 			x.res.Fail("X1", "pipelined-reply-missing", "client %d pipelined %d queries; reading reply %d of %d failed: %v", c.ci, sent, i+1, expect, err)
@@ -1728,6 +1748,9 @@ func runExchange(sc *Scenario, res *core.Result, verbose bool) {
 	n.PostYield = sc.PostYield
 	d, j := time.Duration(sc.DelayMs)*time.Millisecond, time.Duration(sc.JitterMs)*time.Millisecond
 	n.Stream = simnet.StreamLink{MinDelay: d, Jitter: j, SegMode: sc.SegMode, ShortRead: sc.ShortRead, Window: sc.Window}
+	if sc.RunSeed%5 == 0 {
+		n.Stream.EOFWithData = 60 // the read that returns the last octets before a close returns io.EOF with them
+	}
 	n.Dgram = simnet.DgramLink{MinDelay: d, Jitter: j, Drop: sc.Drop, Dup: sc.Dup}
 	x := &run{sc: sc, k: k, n: n, res: res, ex: map[string]*exState{}, cliFin: make([]bool, len(sc.Clients)), connReply: map[string][]*wrec{}, rawConn: map[int]bool{}, dialed: map[string]*dialRec{}}
 	if common.DialSeam() {
@@ -2135,6 +2158,9 @@ func runFraming(sc *Scenario, res *core.Result, verbose bool) {
 	defer kernel.SetCurrent(nil)
 	n := simnet.New(k)
 	n.Stream = simnet.StreamLink{MinDelay: time.Duration(sc.DelayMs) * time.Millisecond, Jitter: time.Duration(sc.JitterMs) * time.Millisecond, SegMode: sc.SegMode, ShortRead: sc.ShortRead, Window: sc.Window, MaxSegs: 8}
+	if sc.RunSeed%3 == 0 {
+		n.Stream.EOFWithData = 60
+	}
 	x := &frRun{sc: sc, k: k, res: res}
 	wc, rc := n.Pair(true)
 	x.wconn, x.rconn = wc, rc
